@@ -38,7 +38,7 @@ class G:
         return [self.mag(kmax) for _ in range(n)]
 
     # ---- angles (tangent rotation magnitudes) ----
-    ANGLE_STRATA = ["zero", "tiny", "below_thr", "at_thr", "above_thr", "small", "generic", "near_pi", "pi_d", "beyond_pi", "multi_turn"]
+    ANGLE_STRATA = ["zero", "tiny", "below_thr", "at_thr", "above_thr", "small", "smallish", "generic", "near_pi", "pi_d", "beyond_pi", "multi_turn"]
     def angle(self, stratum=None, thr=SQRT_EPS_D):
         s = stratum or self.r.choice(self.ANGLE_STRATA)
         self.note("angle:" + s)
@@ -49,6 +49,7 @@ class G:
         if s == "at_thr": return sign * thr
         if s == "above_thr": return sign * thr * (1 + Fr(1, 2**self.r.choice([20, 40, 3])))
         if s == "small": return sign * Fr(self.r.randint(1, 999), 10**self.r.randint(4, 12))
+        if s == "smallish": return sign * Fr(self.r.randint(1, 500), 1000)      # 1e-3 .. 0.5: where a mis-set small-angle threshold or a wrong series coefficient shows
         if s == "generic": return sign * Fr(self.r.randint(1, 300), 100)
         if s == "near_pi": return sign * (PI_D - Fr(self.r.randint(-3, 3), 2**self.r.choice([20, 30, 45])))
         if s == "pi_d": return sign * PI_D
